@@ -44,6 +44,11 @@ def content(n, kind):
     raise KeyError(kind)
 
 
+def trace_variant(desc, tier):
+    """With trace logging enabled: everything except the 3-frame streams."""
+    return not (desc["part"] == "tuple" and desc.get("k", 0) >= 3)
+
+
 def tasks(tier, seed):
     ts = []
     heads = [(fin, op) for op in (R.CONT, R.TEXT, R.BINARY) for fin in (0, 1)] + [(1, R.CLOSE), (1, R.PING), (1, R.PONG)]
@@ -149,7 +154,27 @@ def sym_bytes(sym, idx):
     return fr, [(kind, op, payload)], [len(fr)]
 
 
-def tuple_case(symidx):
+CFGS = ["default", "nomt", "timeout+skip", "connected", "reused-midframe"]
+
+
+def configured_ws(cfg, stream):
+    """The connection object a stream is decoded on: default, without locks, with a socket timeout and UTF-8 validation off, after a real
+    connect(), or a re-used object whose first connection ended in the middle of a frame."""
+    if cfg in ("connected", "reused-midframe"):
+        ws, sock = env.prepared_ws(cfg)
+        sock.at_end = "eof"
+        base = len(sock.stream)
+        sock.stream += stream
+        return ws, sock, base
+    sock = env.ScriptSock(stream)
+    kw = {"enable_multithread": False} if cfg == "nomt" else ({"skip_utf8_validation": True} if cfg == "timeout+skip" else {})
+    ws = env.make_ws(sock, **kw)
+    if cfg == "timeout+skip":
+        ws.settimeout(5)
+    return ws, sock, 0
+
+
+def tuple_case(symidx, cfg="default"):
     stream = b""
     expected = []
     bounds_ = []
@@ -158,8 +183,8 @@ def tuple_case(symidx):
         stream += b
         expected += exp
         bounds_.append(len(stream))
-    sock = env.ScriptSock(stream + SENTINEL)
-    ws = env.make_ws(sock)
+    ws, sock, base = configured_ws(cfg, stream + SENTINEL)
+    bounds_ = [b + base for b in bounds_]
     sig = {"kind": "stream", "syms": None}
     for j, (kind, op, payload) in enumerate(expected):
         try:
@@ -220,16 +245,19 @@ def run_task(desc):
         k = desc["k"]
         for restt in itertools.product(range(len(SYMS)), repeat=k - 1):
             symidx = (desc["first"],) + restt
-            try:
-                fail = tuple_case(symidx)
-            except Exception as e:
-                v = as_violation(e)
-                if v is None:
-                    raise
-                fail = (v.sig, v.what)
-            res["execs"] += 1
-            seen.add(symidx)
-            record(fail, {"case": "tuple", "syms": list(symidx)})
+            for cfg in CFGS:
+                try:
+                    fail = tuple_case(symidx, cfg)
+                except Exception as e:
+                    v = as_violation(e)
+                    if v is None:
+                        raise
+                    fail = (v.sig, v.what)
+                if fail is not None and cfg != "default":
+                    fail = (dict(fail[0], cfg=cfg), fail[1] + " [connection: %s]" % cfg)
+                res["execs"] += 1
+                seen.add(symidx + (cfg,))
+                record(fail, {"case": "tuple", "syms": list(symidx), "cfg": cfg})
         res["samples"].append({"stream_classes": [str(SYMS[desc["first"]][:2])], "k": k})
     else:
         # non-minimal encodings: accepted => must decode equal
@@ -251,5 +279,5 @@ def replay(rep):
     if rep["case"] == "one":
         fail = one_frame_case(rep["api"], rep["fin"], rep["op"], KEYS[rep["key"]], rep["n"], rep["kind"], rep.get("lenform"))
     else:
-        fail = tuple_case(tuple(rep["syms"]))
+        fail = tuple_case(tuple(rep["syms"]), rep.get("cfg", "default"))
     return None if fail is None else {"sig": fail[0], "what": fail[1]}
